@@ -6,7 +6,7 @@ Memory is a set of objects with concrete base addresses; bytes are concrete,
 symbolic or uninitialised.  Branches on symbolic conditions fork the state;
 feasibility and assertions are decided by z3.
 """
-import sys, re, time, bisect, threading, zlib, json
+import sys, re, time, bisect, threading, zlib, json, os, multiprocessing
 import z3
 
 sys.setrecursionlimit(1000000)
@@ -787,6 +787,7 @@ class State:
         self.depthmax = {}     # tracked function -> max live frames on this path
         self.killed = False    # ended by a failed assume
         self.failed = False    # an assertion failed concretely on this path
+        self.known = {}        # ast id -> (expr, bool): branch conditions already decided under this path condition
 
     def fork(self):
         s = State()
@@ -805,6 +806,7 @@ class State:
         s.notes = list(self.notes)
         s.valist = dict(self.valist)
         s.choices = self.choices; s.mine = self.mine; s.failed = self.failed
+        s.known = dict(self.known)
         s.obs = list(self.obs); s.live = dict(self.live); s.depthmax = dict(self.depthmax)
         # both get new tokens so both copy-on-write
         self.token = object()
@@ -853,6 +855,12 @@ class Engine:
         self.inconclusive = []
         self.funcs_entered = set()
         self.track = set()
+        self.known_hits = 0
+        self.sem = None            # token pool for forked workers (None: single process)
+        self.kids = []
+        self.partbase = None
+        self.spawned = 0
+        self.is_child = False
         install_intrinsics(self)
 
     # ---- solver helpers
@@ -1085,6 +1093,57 @@ class Engine:
                     out.append([name, m.eval(v, model_completion=True).as_long()])
         return out
 
+    def try_spawn(self, fn):
+        """explore a subtree in a forked worker process if a token is free; fn() does the exploration"""
+        if self.sem is None or not self.sem.acquire(False):
+            return False
+        pid = os.fork()
+        if pid:
+            self.kids.append(pid)
+            self.spawned += 1
+            return True
+        # ---- child: fresh counters, explore, write its part, release the token, wait for its own children
+        self.is_child = True
+        self.kids = []
+        self.paths = self.completed = self.steps = self.queries = self.forks = self.assume_killed = 0
+        self.budget_hits = self.spawned = 0
+        self.solver_time = 0.0
+        self.reached = {}; self.vclasses = {}; self.inconclusive = []; self.samples = []; self.sample_stride = 1
+        self.funcs_entered = set(); self.depth_seen = {}; self.max_path_steps = 0
+        code = 0
+        try:
+            fn()
+        except SymxError as e:
+            self.inconclusive.append({'kind': 'engine-error', 'msg': str(e)})
+        except BaseException as e:
+            import traceback
+            self.inconclusive.append({'kind': 'engine-error', 'msg': 'worker: %r %s' % (e, traceback.format_exc()[-1500:])})
+        try:
+            with open('%s.part.%d' % (self.partbase, os.getpid()), 'w') as f:
+                json.dump(self.result(), f)
+        except BaseException:
+            code = 1
+        self.sem.release()
+        self.wait_kids()
+        os._exit(code)
+
+    def wait_kids(self):
+        for pid in self.kids:
+            try:
+                _, st = os.waitpid(pid, 0)
+                if st != 0:
+                    self.inconclusive.append({'kind': 'engine-error', 'msg': 'worker %d exited with status %d' % (pid, st)})
+            except ChildProcessError:
+                pass
+        self.kids = []
+
+    def result(self):
+        return {'paths': self.paths, 'completed': self.completed, 'steps': self.steps, 'queries': self.queries,
+                'solver_s': round(self.solver_time, 3), 'forks': self.forks, 'assume_killed': self.assume_killed,
+                'violations': list(self.vclasses.values()), 'inconclusive': self.inconclusive[:50], 'reached': self.reached,
+                'budget_hits': self.budget_hits, 'max_path_steps': self.max_path_steps, 'depth_seen': self.depth_seen,
+                'funcs': sorted(self.funcs_entered), 'samples': self.samples, 'spawned': self.spawned}
+
     def explore(self, st):
         """run st to completion, forking at symbolic branches (recursive DFS)"""
         while True:
@@ -1106,8 +1165,33 @@ class Engine:
                     self.paths += 1
                 return
             kind = fork[0]
+            if kind == 'cond' and fork[3] is _kill_state:
+                # an assumption: the false side dies at once, so no state fork and no slice choice
+                cond = fork[1]
+                mt = self.model_true(cond)
+                if mt is not True:
+                    if not self.check(cond):
+                        st.killed = True
+                        self.path_done(st)
+                        return
+                    self.model = self.solver.model()
+                    killed_side = True      # the cached model violated cond, so the other side exists
+                else:
+                    killed_side = self.check(z3.Not(cond))
+                if killed_side and self.is_mine(st):
+                    self.paths += 1
+                    self.assume_killed += 1
+                self.solver.add(cond)
+                continue
             if kind == 'cond':
                 _, cond, on_true, on_false = fork
+                cid = cond.get_id()
+                kn = st.known.get(cid)
+                if kn is not None:
+                    # decided earlier on this path; the path condition only grows, so it stays decided
+                    self.known_hits += 1
+                    (on_true if kn[1] else on_false)(st)
+                    continue
                 ncond = z3.Not(cond)
                 mt = self.model_true(cond)
                 sides = []
@@ -1141,17 +1225,23 @@ class Engine:
                 if len(sides) == 1:
                     c, cont, m, lab = sides[0]
                     self.model = m
+                    st.known[cid] = (cond, lab == 'T')
                     cont(st)
                     continue
                 # real fork
                 self.forks += 1
                 child = st.fork()
                 (c1, k1, m1, l1), (c2, k2, m2, l2) = sides
+                child.known[cid] = (cond, l2 == 'T')
+                st.known[cid] = (cond, l1 == 'T')
                 if self.choose(child, l2):
-                    self.solver.push(); self.solver.add(c2); self.model = m2
-                    k2(child)
-                    self.explore(child)
-                    self.solver.pop()
+                    def sub(child=child, c2=c2, m2=m2, k2=k2):
+                        self.solver.push(); self.solver.add(c2); self.model = m2
+                        k2(child)
+                        self.explore(child)
+                        self.solver.pop()
+                    if not self.try_spawn(sub):
+                        sub()
                 if self.stop:
                     return
                 if not self.choose(st, l1):
@@ -1189,16 +1279,21 @@ class Engine:
                             return
                         continue
                     if not last:
-                        self.solver.push()
-                    self.solver.add(expr == v)
-                    self.model = m
-                    cont(s2, v)
-                    if not last:
-                        self.explore(s2)
-                        self.solver.pop()
+                        def sub(s2=s2, v=v, m=m):
+                            self.solver.push()
+                            self.solver.add(expr == v)
+                            self.model = m
+                            cont(s2, v)
+                            self.explore(s2)
+                            self.solver.pop()
+                        if not self.try_spawn(sub):
+                            sub()
                         if self.stop:
                             return
                     else:
+                        self.solver.add(expr == v)
+                        self.model = m
+                        cont(s2, v)
                         st = s2
                 continue
 
@@ -1211,7 +1306,8 @@ class Engine:
         if kind == 'budget':
             self.budget_hits += 1
         fn = [fr.f.name for fr in reversed(st.frames[-8:])]
-        key = (kind, msg, tuple(fn[:4]))
+        msg = _ADDR.sub('N', msg)
+        key = (kind, msg, tuple(fn[:2]))
         c = self.vclasses.get(key)
         if c is None:
             c = {'kind': kind, 'msg': msg, 'stack': fn, 'count': 0, 'examples': []}
@@ -1600,6 +1696,7 @@ class Engine:
             return z3.Extract(b2 - 1, 0, x)
         return x
 
+_ADDR = re.compile(r'0x[0-9a-f]+|\d+')
 ONES = [b'\x01' * n for n in range(0, 65)]
 class _NotHandled:
     pass
@@ -2162,6 +2259,7 @@ def main():
     ap.add_argument('--track', default='')
     ap.add_argument('--samples', type=int, default=32)
     ap.add_argument('--out', default='-')
+    ap.add_argument('--procs', type=int, default=1)
     ap.add_argument('-v', action='count', default=0)
     a = ap.parse_args()
     t0 = time.time()
@@ -2177,6 +2275,9 @@ def main():
     E.deadline = time.time() + a.timeout
     E.track = set(x for x in a.track.split(',') if x)
     E.max_samples = a.samples
+    if a.procs > 1:
+        E.sem = multiprocessing.Semaphore(a.procs - 1)
+        E.partbase = (a.out if a.out != '-' else '/tmp/symx.%d' % os.getpid())
     err = None
     try:
         E.run(a.entry)
@@ -2185,13 +2286,43 @@ def main():
         E.inconclusive.append({'kind': 'engine-error', 'msg': str(e)})
     except RecursionError as e:
         E.inconclusive.append({'kind': 'engine-error', 'msg': 'recursion: %s' % e})
+    E.wait_kids()
     t2 = time.time()
-    res = {'parse_s': round(t1 - t0, 2), 'run_s': round(t2 - t1, 2), 'paths': E.paths, 'completed': E.completed,
-           'steps': E.steps, 'queries': E.queries, 'solver_s': round(E.solver_time, 2), 'forks': E.forks,
-           'assume_killed': E.assume_killed, 'violations': list(E.vclasses.values()),
-           'inconclusive': E.inconclusive[:50], 'reached': E.reached, 'budget_hits': E.budget_hits,
-           'max_path_steps': E.max_path_steps, 'depth_seen': E.depth_seen,
-           'funcs': sorted(E.funcs_entered), 'samples': E.samples[:a.samples], 'slice': a.slice}
+    res = E.result()
+    # merge the parts written by forked workers
+    if E.partbase:
+        import glob
+        for pf in glob.glob(E.partbase + '.part.*'):
+            try:
+                d = json.load(open(pf))
+            except Exception as e:
+                res['inconclusive'].append({'kind': 'engine-error', 'msg': 'unreadable worker part %s: %s' % (pf, e)})
+                continue
+            finally:
+                os.unlink(pf)
+            for k in ('paths', 'completed', 'steps', 'queries', 'forks', 'assume_killed', 'budget_hits', 'spawned'):
+                res[k] += d[k]
+            res['solver_s'] += d['solver_s']
+            res['max_path_steps'] = max(res['max_path_steps'], d['max_path_steps'])
+            for k, v in d['reached'].items():
+                res['reached'][k] = res['reached'].get(k, 0) + v
+            for k, v in d['depth_seen'].items():
+                res['depth_seen'][k] = max(res['depth_seen'].get(k, 0), v)
+            res['funcs'] = sorted(set(res['funcs']) | set(d['funcs']))
+            byk = {(v['kind'], v['msg'], tuple(v['stack'][:2])): v for v in res['violations']}
+            for v in d['violations']:
+                c = byk.get((v['kind'], v['msg'], tuple(v['stack'][:2])))
+                if c is None:
+                    res['violations'].append(v); byk[(v['kind'], v['msg'], tuple(v['stack'][:2]))] = v
+                else:
+                    c['count'] += v['count']; c['examples'] = (c['examples'] + v['examples'])[:4]
+            res['inconclusive'] += d['inconclusive']
+            res['samples'] += d['samples']
+    import random
+    random.Random(1).shuffle(res['samples'])
+    res['samples'] = res['samples'][:a.samples]
+    res['inconclusive'] = res['inconclusive'][:50]
+    res.update({'parse_s': round(t1 - t0, 2), 'run_s': round(t2 - t1, 2), 'slice': a.slice, 'procs': a.procs})
     txt = json.dumps(res, indent=1)
     if a.out == '-':
         print(txt)
